@@ -262,6 +262,7 @@ type histOpts struct {
 	multiPart      bool
 	sameInterval   int // 0..100: probability that a write re-uses an earlier interval of its bucket
 	uniqueSlots    bool // every (bucket, interval) is written at most once in the history
+	destroys       bool // histories contain Destroy requests of buckets written before (C03 only)
 }
 
 var crashTFs = []string{"1Min", "1D", "1H", "1Sec"}
@@ -285,6 +286,20 @@ func genHistory(t *rapid.T, o histOpts) *wl.History {
 		if o.checkpoints && len(h.Ops) > 0 && rapid.IntRange(0, 3).Draw(t, "ckpt") == 0 {
 			h.Ops = append(h.Ops, wl.Op{Kind: "checkpoint"})
 			continue
+		}
+		if o.destroys && len(h.Ops) > 0 && rapid.IntRange(0, 4).Draw(t, "destroy") == 0 {
+			var live []int
+			for bi := range h.Buckets {
+				if len(used[bi]) > 0 {
+					live = append(live, bi)
+				}
+			}
+			if len(live) > 0 {
+				bi := rapid.SampledFrom(live).Draw(t, "victim")
+				h.Ops = append(h.Ops, wl.Op{Kind: "destroy", Bucket: bi})
+				used[bi] = nil
+				continue
+			}
 		}
 		op := wl.Op{Kind: "write"}
 		nparts := 1
@@ -385,6 +400,36 @@ func historyRows(h *wl.History) []wrRow {
 		}
 	}
 	return out
+}
+
+// existsAt: the state of bucket bi at crash point k in a sequential history: exists (its last
+// acknowledged request is a write) and settled (no create/destroy of it in flight).
+func existsAt(cr *crashRun, k, bi int) (exists, settled bool) {
+	settled = true
+	for oi, op := range cr.H.Ops {
+		touches := false
+		switch op.Kind {
+		case "write":
+			for _, p := range op.Parts {
+				if p.Bucket == bi {
+					touches = true
+				}
+			}
+		case "destroy":
+			touches = op.Bucket == bi
+		}
+		if !touches || !cr.issued(oi, k) {
+			continue
+		}
+		if !cr.acked(oi, k) {
+			if op.Kind == "destroy" || !exists {
+				settled = false
+			}
+			continue
+		}
+		exists = op.Kind == "write"
+	}
+	return
 }
 
 // creatingOp returns for each bucket the op that first writes it (and thereby creates it).
